@@ -5,6 +5,8 @@ import JominiModel.Proofs.TextReader
 import JominiModel.Proofs.TextReaderStream
 import JominiModel.Proofs.TextReaderFast
 import JominiModel.Proofs.TextFault
+import JominiModel.Proofs.TextReaderFaithful
+import JominiModel.Proofs.TextReaderUnfit
 import JominiModel.Generated.Tables
 /-
 C07 — the streaming text reader is independent of read chunking and buffer size.
@@ -25,11 +27,14 @@ Proved here (about the model `Model/TextReader.lean`):
   outcome, final position = |data| at a clean end) or ends in the error `BufferFull` after a PREFIX of the from-slice
   tokens; for cap > |data| it always equals it.
 
+* `C07_slice_faithful`, `C07_stream_faithful`: on the rendering of any document under a valid reader-safe layout the
+  reader returns exactly the document's lexeme list (slice reader; streaming reader for every schedule and fitting cap);
 * `C07_full_only_if_unfit`, `C07_stream_eq_slice_fits`: with `need data ≤ cap` (the decidable fit predicate) the run
   never ends in `BufferFull`, hence streamed = from-slice for every capacity that fits.
 
 Not proved (decided by the correspondence run + implementation oracle only), statement kept at the end:
-* `C07_unfit_is_full`: the converse, a buffer smaller than `need` always ends in `BufferFull`.
+* `C07_unfit_is_full`: the converse, a buffer smaller than `need` always ends in `BufferFull` (proved for unfit tokens:
+  `C07_unfit_is_full_partial`).
 -/
 namespace Jomini.Props.C07
 open Jomini Jomini.TextReader Jomini.TextReader.Spec Jomini.TextReader.Swar
@@ -356,14 +361,95 @@ theorem C07_stream_eq_slice_fits (data : Bytes) (cap : Nat) (sched : List Step) 
   · exact absurd a (C07_full_only_if_unfit data cap sched hw hfit)
   · exact h
 
+/-! ### faithfulness on rendered documents -/
+
+/-- **`C07_slice_faithful`.**  For every document `ms` — fields `key op value`, array elements, containers nested to
+any depth, quoted and unquoted scalars — and every valid READER-SAFE layout (`ValidM`: gaps made of blanks and complete
+`#` comments, `;` never glued to a scalar, every unquoted scalar followed by a boundary byte, `=`/`<`/`>` not followed by
+`=`; an optional BOM; trailing filler `gt`, which may end in an unterminated comment), the from-slice reader over the
+rendering returns exactly the lexeme list of the document — `Open` / `Close` / `Operator` / `Unquoted` / `Quoted` with the
+scalar bytes —, ends cleanly, and its final position is the input length. -/
+theorem C07_slice_faithful (ms : DMembers) (gt : Bytes) (bom : Bool) (hv : ValidM ms gt) (hgt : EndGap gt)
+    (hclash : bom = false → ¬∃ r', renderM ms ++ gt = 0xef :: 0xbb :: 0xbf :: r') :
+    (sliceTokens (bomBytes bom ++ (renderM ms ++ gt))).toks = (itemsM ms).map (fun x => x.2.tok) ∧
+    (sliceTokens (bomBytes bom ++ (renderM ms ++ gt))).out = .end_ ∧
+    (sliceTokens (bomBytes bom ++ (renderM ms ++ gt))).final.position = (bomBytes bom ++ (renderM ms ++ gt)).length :=
+  slice_faithful ms gt bom hv hgt hclash
+
+/-- the same at the level of lexeme lists with gaps (what the document theorem is proved from). -/
+theorem C07_slice_faithful_lexemes (items : List (Bytes × Lexeme)) (gt : Bytes) (bom : Bool) (hv : ValidLex items gt)
+    (hclash : bom = false → ¬∃ r', renderLex items gt = 0xef :: 0xbb :: 0xbf :: r') :
+    (sliceTokens (bomBytes bom ++ renderLex items gt)).toks = items.map (fun x => x.2.tok) ∧
+    (sliceTokens (bomBytes bom ++ renderLex items gt)).out = .end_ ∧
+    (sliceTokens (bomBytes bom ++ renderLex items gt)).final.position = (bomBytes bom ++ renderLex items gt).length :=
+  slice_faithful_lexemes items gt bom hv hclash
+
+/-- **`C07_stream_faithful`.**  … and therefore, for every fault-free read schedule and every buffer capacity that fits
+(`need (rendering) ≤ cap`), the STREAMING reader returns exactly the lexeme list of the document, ends cleanly, at the end
+of the input. -/
+theorem C07_stream_faithful (ms : DMembers) (gt : Bytes) (bom : Bool) (cap : Nat) (sched : List Step)
+    (hv : ValidM ms gt) (hgt : EndGap gt)
+    (hclash : bom = false → ¬∃ r', renderM ms ++ gt = 0xef :: 0xbb :: 0xbf :: r')
+    (hw : WfSched sched) (hnf : NoFaults sched) (hfit : need (bomBytes bom ++ (renderM ms ++ gt)) ≤ cap) :
+    (streamTokens cap sched (bomBytes bom ++ (renderM ms ++ gt))).toks = (itemsM ms).map (fun x => x.2.tok) ∧
+    (streamTokens cap sched (bomBytes bom ++ (renderM ms ++ gt))).out = .end_ ∧
+    (streamTokens cap sched (bomBytes bom ++ (renderM ms ++ gt))).final.position =
+      (bomBytes bom ++ (renderM ms ++ gt)).length := by
+  obtain ⟨s1, s2, s3⟩ := C07_slice_faithful ms gt bom hv hgt hclash
+  obtain ⟨e1, e2, e3⟩ := C07_stream_eq_slice_fits _ cap sched hw hnf hfit
+  refine ⟨e1.trans s1, e2.trans s2, ?_⟩
+  exact (e3 (e2.trans s2)).1
+
+-- `a = { "x y" 1 } # c\n b>=2` : a field whose value is a container with two elements, then a field with `>=`
+example :
+    let doc : DMembers :=
+      .field [] false [97] [32] .eq (.cont [32] (.elem (.scal [32] true [120, 32, 121]) (.elem (.scal [32] false [49]) .nil)) [32])
+        (.field [32, 35, 32, 99, 10, 32] false [98] [] .ge (.scal [] false [50]) .nil)
+    (sliceTokens (renderM doc ++ [10])).toks = (itemsM doc).map (fun x => x.2.tok) := by
+  decide +kernel
+
+/-! ### the converse: what does not fit ends in BufferFull -/
+
+/-- every token the streaming reader returns was inside its buffer (any schedule, cap ≥ 1): `tokSize` = the bytes of an
+unquoted scalar, resp. the content of a quoted scalar plus its closing quote. -/
+theorem C07_returned_tokens_fit (data : Bytes) (cap : Nat) (sched : List Step) (hcap : 0 < cap) :
+    ∀ t ∈ (streamTokens cap sched data).toks, tokSize t ≤ cap :=
+  streamTokens_tok_size data cap sched hcap
+
+/-- **`C07_unfit_is_full`, token form (partial).**  If the input contains a token that cannot fit the buffer — an unquoted
+scalar longer than `cap`, or a quoted scalar whose content plus closing quote is longer than `cap` — then EVERY
+fault-free read schedule ends in `BufferFull`, after a prefix of the from-slice tokens (never a clean end, never a split
+or altered token).
+
+Full statement (`C07_unfit_is_full`, not proved): the same under `cap < need data`, which in addition counts the look-ahead
+byte after an unquoted scalar / operator, comments, `@[…` prefixes and the BOM arm; on the real code the op `tneed` checks
+it for `cap = need − 1` (oracle `need-not-tight`, 0 violations).  Missing for the proof: that the carries of the scans of
+successive window prefixes inside one item never decrease (the item's start is fixed), so that a prefix the schedule did
+not stop at is bounded by the next one it did stop at. -/
+theorem C07_unfit_is_full_partial (data : Bytes) (cap : Nat) (sched : List Step) (hcap : 0 < cap) (hw : WfSched sched)
+    (hnf : NoFaults sched) (t : Token) (ht : t ∈ (sliceTokens data).toks) (hbig : cap < tokSize t) :
+    (streamTokens cap sched data).out = .err .full ∧
+    (streamTokens cap sched data).toks <+: (sliceTokens data).toks := by
+  rcases C07_stream_eq_slice data cap sched hcap hw hnf with ⟨a, b, _⟩ | ⟨a, _, _⟩
+  · exact ⟨a, b⟩
+  · exfalso
+    rw [← a] at ht
+    have := C07_returned_tokens_fit data cap sched hcap t ht
+    omega
+
+-- `abcdef ` holds the 6-byte scalar `abcdef`; a 4-byte buffer cannot return it
+example : Token.unquoted [97, 98, 99, 100, 101, 102] ∈ (sliceTokens [97, 98, 99, 100, 101, 102, 32]).toks := by
+  decide +kernel
+
 /-
 Not proved; statement kept as the obligation (exercised on the real code by the op `tneed`, oracle `need-not-tight`, and
 by the oracle `overflow-not-error`):
 
 theorem C07_unfit_is_full (data cap sched) (hcap : 0 < cap) (h : cap < need data) (hw : WfSched sched) (hnf : NoFaults sched) :
     (streamTokens cap sched data).out = .err .full
-  -- the converse of C07_full_only_if_unfit: with too small a buffer the run always ends in BufferFull
-  -- (C07_overflow_is_error already gives: whenever the result differs from the slice result it is BufferFull after a prefix).
+  -- the converse of C07_full_only_if_unfit, for EVERY fault-free schedule: with too small a buffer the run always ends in
+  -- BufferFull.  Proved above for unfit TOKENS (`C07_unfit_is_full_partial`); open for the look-ahead byte, comments,
+  -- `@[…` prefixes and the BOM arm.
 -/
 
 end Jomini.Props.C07
